@@ -486,6 +486,18 @@ _ROUND14 = {
 }
 for _pid, _txt in _ROUND14.items():
     _ROUND9[_pid] = _ROUND9.get(_pid, "") + _txt
+_ROUND15 = {
+    "C02": " An admitted call whose message is blank in no reading (control characters are not white space; messages of control characters only are drawn) must give each destination more than the bare newline. First arguments of Println include typed nil pointers, pointers to nil pointers and nil maps / slices / funcs / channels.",
+    "C04": " Disturbance 9 (1 case of 8): records from a logger whose skip count lies beyond the stack, caller info on, in the three formats, before the record under test.",
+    "C05": " Disturbance 9 (1 case of 8): records from a logger whose skip count lies beyond the stack, caller info on, in the three formats, before the record under test.",
+    "C06": " Disturbance 9 (1 case of 8): records from a logger whose skip count lies beyond the stack, caller info on, in the three formats, before the record under test.",
+    "C07": " Disturbance 9 (1 case of 8): records from a logger whose skip count lies beyond the stack, caller info on, in the three formats, before the record under test.",
+    "C10": " A logger whose time style the model does not know is watched all the same: how it printed the probe instant is remembered and must stay the same until one of its own time settings changes.",
+    "C13": " Failure kind 7: every failing Write returns an error text of its own (several destinations failing on one record: still one diagnostic).",
+    "C16": " In half of the cases a record of a neighbouring instant (1 ns to just under 1 s away) is printed first through the same logger. SetTimeFormat() or SetTimeFormat(\"\") is called before the call that gives the layout in two cases of five.",
+}
+for _pid, _txt in _ROUND15.items():
+    _ROUND9[_pid] = _ROUND9.get(_pid, "") + _txt
 for _pid, _txt in _ROUND11.items():
     _ROUND9[_pid] = _ROUND9.get(_pid, "") + _txt
 for _pid, _txt in _ROUND10.items():
